@@ -65,6 +65,7 @@ InitStateC(inp, closed, compat) ==
     adj    |-> <<>>,       \* per atom: its out-bonds (indices into bonds) in written order:
                            \*   ring bonds first (order of formation), then chain bonds
     rm     |-> <<>>,       \* per atom: ring bonds made so far
+    bc     |-> <<>>,       \* per atom: running bond-order sum (BcMeaning: = BondSum, the definition)
     rings  |-> <<>>,       \* queued ring requests [l, r, order, ls, rs]
     ri     |-> 1,
     fuzzy  |-> FALSE,      \* an [..eps..] look-alike was read: outcome is in the permissive region
@@ -152,6 +153,8 @@ DoReadAtom(d) ==
             !.adj = IF st = 0 THEN Append(@, <<>>)
                     ELSE Append([@ EXCEPT ![Top(d).prev] = Append(@, Len(d.bonds) + 1)], <<>>),
             !.rm = Append(@, 0),
+            !.bc = IF st = 0 THEN Append(@, 0)
+                   ELSE Append([@ EXCEPT ![Top(d).prev] = @ + bo], bo),
             !.stack = SetTop(d, [Top(d) EXCEPT !.state = ns, !.prev = n])]
 
 DoReadBranch(d) ==
@@ -212,20 +215,23 @@ DoPop(d) ==
 (***************************************************************************)
 DoFormRing(d) ==
   LET r  == d.rings[d.ri]
-      lf == d.atoms[r.l].cap - BondSum(d, r.l)
-      rf == d.atoms[r.r].cap - BondSum(d, r.r)
+      lf == d.atoms[r.l].cap - d.bc[r.l]
+      rf == d.atoms[r.r].cap - d.bc[r.r]
       o  == Min(Min(r.order, lf), rf)
       nx == [d EXCEPT !.ri = @ + 1]
   IN IF r.l = r.r \/ lf <= 0 \/ rf <= 0 THEN nx
      ELSE IF HasBond(d, r.l, r.r)
           THEN LET j == BondIdx(d, r.l, r.r)
-               IN [nx EXCEPT !.bonds[j].order = Min(o + @, 3)]
+                   inc == Min(o + d.bonds[j].order, 3) - d.bonds[j].order
+               IN [nx EXCEPT !.bonds[j].order = @ + inc,
+                             !.bc = [@ EXCEPT ![r.l] = @ + inc, ![r.r] = @ + inc]]
           ELSE LET j == Len(d.bonds) + 1
                    Ins(l, k) == SubSeq(l, 1, k) \o <<j>> \o SubSeq(l, k + 1, Len(l))
                IN [nx EXCEPT !.bonds = Append(@, [src |-> r.l, dst |-> r.r, order |-> o, ring |-> TRUE,
                                                   ls |-> r.ls, rs |-> r.rs]),
                              !.adj = [@ EXCEPT ![r.l] = Ins(@, d.rm[r.l]), ![r.r] = Ins(@, d.rm[r.r])],
-                             !.rm = [@ EXCEPT ![r.l] = @ + 1, ![r.r] = @ + 1]]
+                             !.rm = [@ EXCEPT ![r.l] = @ + 1, ![r.r] = @ + 1],
+                             !.bc = [@ EXCEPT ![r.l] = @ + o, ![r.r] = @ + o]]
 DoRingsDone(d) ==
   [d EXCEPT !.pc = "write", !.lab = [j \in 1..Len(d.bonds) |-> 0]]
 
@@ -241,6 +247,32 @@ AdjFrom(d, j, i, wantRing) ==
   ELSE (IF wantRing /\ d.bonds[j].ring /\ (d.bonds[j].src = i \/ d.bonds[j].dst = i) THEN <<j>>
         ELSE IF ~wantRing /\ ~d.bonds[j].ring /\ d.bonds[j].src = i THEN <<j>> ELSE <<>>)
        \o AdjFrom(d, j + 1, i, wantRing)
+BcMeaning(d) == \A i \in 1..Len(d.atoms) : d.bc[i] = BondSum(d, i)
+
+(* Linear-time equivalents used on long traces (their equivalence with the   *)
+(* definitions above is an invariant of the small models: InvFastEquiv).     *)
+RECURSIVE SumsFrom(_, _, _)
+SumsFrom(d, j, f) ==
+  IF j > Len(d.bonds) THEN f
+  ELSE LET b == d.bonds[j]
+       IN SumsFrom(d, j + 1, [f EXCEPT ![b.src] = @ + b.order, ![b.dst] = @ + b.order])
+AllSums(d) == SumsFrom(d, 1, [i \in 1..Len(d.atoms) |-> 0])
+BcFast(d) == d.bc = AllSums(d)
+ValenceFast(d) == LET f == AllSums(d) IN \A i \in 1..Len(d.atoms) : f[i] <= d.atoms[i].cap
+AdjFast(d) ==
+  /\ Len(d.adj) = Len(d.atoms)
+  /\ \A j \in 1..Len(d.bonds) :
+        LET b == d.bonds[j]
+        IN /\ \E k \in 1..Len(d.adj[b.src]) : d.adj[b.src][k] = j
+           /\ (b.ring => \E k \in 1..Len(d.adj[b.dst]) : d.adj[b.dst][k] = j)
+  /\ SumSeq([i \in 1..Len(d.adj) |-> Len(d.adj[i])])
+        = Len(d.bonds) + Cardinality({j \in 1..Len(d.bonds) : d.bonds[j].ring})
+  /\ \A i \in 1..Len(d.adj) : \A k \in 1..(Len(d.adj[i]) - 1) :
+        LET x == d.bonds[d.adj[i][k]]  y == d.bonds[d.adj[i][k + 1]]
+        IN /\ (x.ring \/ ~y.ring)                                   \* ring bonds first
+           /\ (x.ring = y.ring => d.adj[i][k] < d.adj[i][k + 1])     \* each group in order of creation
+  /\ \A i \in 1..Len(d.adj) : \A k \in 1..Len(d.adj[i]) :
+        LET x == d.bonds[d.adj[i][k]] IN IF x.ring THEN i \in {x.src, x.dst} ELSE x.src = i
 AdjMeaning(d) == \A i \in 1..Len(d.atoms) : d.adj[i] = AdjFrom(d, 1, i, TRUE) \o AdjFrom(d, 1, i, FALSE)
 Roots(d) == SelectSeq([i \in 1..Len(d.atoms) |-> i], LAMBDA i : d.atoms[i].root)
 Other(b, i) == IF b.src = i THEN b.dst ELSE b.src
@@ -357,17 +389,21 @@ Balanced(d) == d.pc = "done" => Count(d.out, "(") = Count(d.out, ")")
 NoEmptyBranch(d) == \A i \in 1..(Len(d.out) - 1) : ~(Ch(d.out, i) = "(" /\ Ch(d.out, i + 1) = ")")
 AllWritten(d) == d.pc = "done" => Len(d.otok) = Len(d.atoms)
 
+FastEquiv(d) == /\ BcFast(d) = BcMeaning(d) /\ ValenceFast(d) = Valence(d)
+                /\ (d.pc \in {"write", "done"} => AdjFast(d) = AdjMeaning(d))
+
 FailedClauses(d) ==
   {c \in {"Valence", "CapIsTable", "NoSelfBond", "NoDoubleEdge", "OrdersLegal", "ChainForward",
           "LabelsLegal", "LabelsPaired", "EveryRingClosed", "Balanced", "NoEmptyBranch", "AllWritten",
-          "AdjMeaning"} :
-     ~ CASE c = "Valence" -> Valence(d) [] c = "CapIsTable" -> CapIsTable(d)
+          "AdjMeaning", "BcMeaning"} :
+     ~ CASE c = "Valence" -> ValenceFast(d) [] c = "CapIsTable" -> CapIsTable(d)
          [] c = "NoSelfBond" -> NoSelfBond(d) [] c = "NoDoubleEdge" -> NoDoubleEdge(d)
          [] c = "OrdersLegal" -> OrdersLegal(d) [] c = "ChainForward" -> ChainForward(d)
          [] c = "LabelsLegal" -> LabelsLegal(d) [] c = "LabelsPaired" -> (d.pc # "done" \/ LabelsPaired(d))
          [] c = "EveryRingClosed" -> EveryRingClosed(d) [] c = "Balanced" -> Balanced(d)
          [] c = "NoEmptyBranch" -> (d.pc # "done" \/ NoEmptyBranch(d)) [] c = "AllWritten" -> AllWritten(d)
-         [] c = "AdjMeaning" -> (d.pc \notin {"write", "done"} \/ AdjMeaning(d))}
+         [] c = "AdjMeaning" -> (d.pc \notin {"write", "done"} \/ AdjFast(d))
+         [] c = "BcMeaning" -> BcFast(d)}
 
 (* The same clauses evaluated incrementally along a behaviour: the graph     *)
 (* clauses only for the atoms the step touched (all other atoms keep their   *)
@@ -380,15 +416,13 @@ TouchedAtoms(d, e) ==
 StepClauses(d, e) ==
   IF e.pc = "done" /\ d.pc # "done" THEN FailedClauses(e)     \* everything once, on the finished molecule
   ELSE LET T == TouchedAtoms(d, e)
-       IN (IF \A i \in T : BondSum(e, i) <= e.atoms[i].cap THEN {} ELSE {"Valence"})
+       IN (IF \A i \in T : e.bc[i] <= e.atoms[i].cap THEN {} ELSE {"Valence"})
           \cup (IF \A i \in T : e.atoms[i].cap = AtomCapacity(Table, e.atoms[i].atom) THEN {} ELSE {"CapIsTable"})
           \cup (IF Len(e.bonds) > Len(d.bonds)
                 THEN LET b == e.bonds[Len(e.bonds)]
                      IN (IF b.src # b.dst THEN {} ELSE {"NoSelfBond"})
-                        \cup (IF HasBond(d, b.src, b.dst) THEN {"NoDoubleEdge"} ELSE {})
                         \cup (IF b.order \in 1..3 /\ b.src < b.dst THEN {} ELSE {"OrdersLegal"})
                 ELSE {})
-          \cup (IF e.ri > d.ri /\ \E j \in 1..Len(e.bonds) : e.bonds[j].order \notin 1..3 THEN {"OrdersLegal"} ELSE {})
           \cup (IF Len(e.labels) > Len(d.labels) /\ ~(e.labels[Len(e.labels)].lab \in 1..MaxLabel \/ e.labels[Len(e.labels)].full)
                 THEN {"LabelsLegal"} ELSE {})
 
